@@ -50,3 +50,61 @@ pub fn fnv_str(s: &str) -> u64 {
   f.str(s);
   f.finish()
 }
+
+/// Findings F7 (known_findings.json) have one mechanism: names are ordered by `PStr` order, which is
+/// content order for names of up to 15 bytes (stored inline), "inline before heap" between a short
+/// and a long name, and *heap allocation order* between two names of 16 bytes or more. So the only
+/// thing F7 can do to a rendered diagnostic is to swap the relative order of two long names, or to
+/// choose another long name where the first of several candidates is shown. Given two renderings of
+/// the same diagnostic that are equal in canonical form, this says whether the difference between
+/// them is of that kind. If not, the difference is not the recorded finding and gets its own
+/// signature.
+pub fn explained_by_order_of_long_names(a: &str, b: &str) -> bool {
+  fn idents(s: &str) -> Vec<&str> {
+    s.split(|c: char| !(c.is_ascii_alphanumeric() || c == '_')).filter(|t| !t.is_empty()).collect()
+  }
+  let long = |t: &str| t.len() >= 16;
+  let (ta, tb) = (idents(a), idents(b));
+  let (mut sa, mut sb) = (ta.clone(), tb.clone());
+  sa.sort();
+  sb.sort();
+  if sa == sb {
+    // a permutation: every inverted pair must consist of two long names
+    let moved: Vec<usize> = (0..ta.len()).filter(|i| ta[*i] != tb[*i]).collect();
+    let pos_in_b = |t: &str| moved.iter().copied().find(|j| tb[*j] == t);
+    for (x, i) in moved.iter().enumerate() {
+      for j in &moved[x + 1..] {
+        let (p, q) = (ta[*i], ta[*j]);
+        if let (Some(pp), Some(pq)) = (pos_in_b(p), pos_in_b(q)) {
+          if pp > pq && !(long(p) && long(q)) {
+            return false;
+          }
+        }
+      }
+    }
+    true
+  } else {
+    // a different choice: at the first point of difference both names must be long
+    let n = ta.len().min(tb.len());
+    match (0..n).find(|i| ta[*i] != tb[*i]) {
+      Some(i) => long(ta[i]) && long(tb[i]),
+      None => false,
+    }
+  }
+}
+
+#[cfg(test)]
+mod order_tests {
+  use super::explained_by_order_of_long_names as ex;
+  #[test]
+  fn cases() {
+    assert!(ex("- `aVeryLongMemberNameOne`\n- `aVeryLongMemberNameTwo`", "- `aVeryLongMemberNameTwo`\n- `aVeryLongMemberNameOne`"));
+    assert!(!ex("- `foo`\n- `aVeryLongMemberNameTwo`", "- `aVeryLongMemberNameTwo`\n- `foo`"));
+    assert!(!ex("- `foo`\n- `bar`", "- `bar`\n- `foo`"));
+    assert!(ex("x `AVeryLongVariantNameOne(_)`.", "x `AVeryLongVariantNameTwo(Some(_))`."));
+    assert!(!ex("x `Circle(None)`.", "x `Square(None)`."));
+    assert!(!ex("x `(Amber, Green)`.", "x `(Green, Amber)`."));
+    assert!(ex("[aVeryLongMemberNameOne, s, aVeryLongMemberNameTwo]", "[aVeryLongMemberNameTwo, s, aVeryLongMemberNameOne]"));
+    assert!(!ex("[aVeryLongMemberNameOne, s, aVeryLongMemberNameTwo]", "[s, aVeryLongMemberNameTwo, aVeryLongMemberNameOne]"));
+  }
+}
